@@ -90,9 +90,30 @@ def builtin_glue(needs_module: str) -> Callable[[InstallGlueFn], InstallGlueFn]:
 glue_lock = threading.Lock()
 
 
-def add_glue_as_needed(*, _sys_modules_len_cache: list[int] = [0]) -> None:
-    if len(sys.modules) == _sys_modules_len_cache[0]:
-        return
+def _newest_module() -> Tuple[Optional[str], object]:
+    # sys.modules preserves insertion order, so its last entry is the most
+    # recently imported module
+    try:
+        name = next(reversed(sys.modules))
+        return name, sys.modules[name]
+    except (StopIteration, RuntimeError, KeyError):  # pragma: no cover
+        # empty, or modified by another thread while we were looking
+        return None, None
+
+
+def add_glue_as_needed(*, _sys_modules_cache: List[object] = [0, None, None]) -> None:
+    # Fast path: nothing has been imported since the last time we looked.
+    # Comparing only len(sys.modules) would miss a module that was imported
+    # after another one was removed, so also check that the most recently
+    # inserted entry is the same module we saw last time.
+    if len(sys.modules) == _sys_modules_cache[0]:
+        newest_name, newest_module = _newest_module()
+        if (
+            newest_name is not None
+            and newest_name == _sys_modules_cache[1]
+            and newest_module is _sys_modules_cache[2]
+        ):
+            return
     # Use a lock to avoid races between multiple threads trying to extract
     # tracebacks simultaneously
     with glue_lock:
@@ -125,9 +146,12 @@ def add_glue_as_needed(*, _sys_modules_len_cache: list[int] = [0]) -> None:
                     "missing information.",
                     RuntimeWarning,
                 )
-        # Only update the length cache if we visited every module (rather
+        # Only update the cache if we visited every module (rather
         # than bailing out with an exception)
-        _sys_modules_len_cache[0] = len(module_names)
+        if module_names:  # pragma: no branch
+            _sys_modules_cache[1] = module_names[-1]
+            _sys_modules_cache[2] = sys.modules.get(module_names[-1])
+        _sys_modules_cache[0] = len(module_names)
 
 
 functools_singledispatch_wrapper = get_code(functools.singledispatch, "wrapper")
